@@ -36,16 +36,16 @@ CHECKS = {
     "C01": {
         "worlds": [{"name": "sigsvc", "variants": {"quick": ["ship", "asan", "alt"], "thorough": ["ship", "asan", "alt"]},
                     "runs": {"quick": 48, "thorough": 4000}, "secondary_share": 0.25}],
-        "rule": "fault enumeration at the nonce-callback seam: every run covers the complete table 160 outcome sequences (<= 3 retrying outcomes {zero nonce, nonce >= n, nonce forcing s = 0} "
+        "rule": "fault enumeration at the nonce-callback seam: every run covers the complete table 160 + 6 outcome sequences (<= 3 retrying outcomes, plus six long runs of 63..1000 retrying outcomes {zero nonce, nonce >= n, nonce forcing s = 0} "
                 "then {pass-through returning 1, pass-through returning another non-zero value, return 0, the caller's own nonce with the message chosen so that the raw s lies on a boundary of the low-S rule}) x 4 key classes {valid, 0, n, 2^256-1} x {ecdsa_sign, ecdsa_sign_recoverable} "
-                "x 3 context kinds = 3840 cells; keys, messages (classes incl. >= n), extra data vary with the seed; evaluations = executed cells (all runs); non-trivial = the cell contains at least one injected fault (callback outcome other than plain pass-through, or an invalid key); distinct = distinct cell identity (key class, entry point, context kind, outcome sequence), counted over the run set",
+                "x 3 context kinds = 3984 cells; keys, messages (classes incl. >= n), extra data vary with the seed; evaluations = executed cells (all runs); non-trivial = the cell contains at least one injected fault (callback outcome other than plain pass-through, or an invalid key); distinct = distinct cell identity (key class, entry point, context kind, outcome sequence), counted over the run set",
         "evaluations_probe": "cells", "exhaustive_table": True, "distinct_from_cover": "fcell",
         "components": COMPONENTS,
         "assumptions": ["only the failure/retry clause of C01 is decided; verification exactness and RFC 6979 conformance over all inputs are input-space and not claimed",
                         "every seventh cell, and every cell that ends with the caller's own nonce, additionally compares the signature bytes and recovery id with the model's RFC 6979 + ECDSA (oracle strengthening, not a conformance claim)"],
     },
     "C07": {
-        "worlds": [{"name": "store", "variants": {"quick": ["asan", "ship"], "thorough": ["asan", "ship", "alt"]},
+        "worlds": [{"name": "store", "variants": {"quick": ["asan", "ship", "alt"], "thorough": ["asan", "ship", "alt"]},
                     "runs": {"quick": 4000, "thorough": 200000}, "secondary_share": 0.5}],
         "rule": "one run = one seeded Plan: 4..40 reads of stored artifacts (20 artifact types x 9 disk conditions: intact, bit rot, torn between two valid artifacts, short, extended, "
                 "stale, misdirected, zero block, FF block) each followed by parse, verify and use of whatever parsed; allocator faults on the allocating parse path; monitors: "
@@ -56,14 +56,14 @@ CHECKS = {
                         "the always-on monitors also ride on every other world and report under C07"],
     },
     "C12": {
-        "worlds": [{"name": "musig", "variants": {"quick": ["ship", "asan_nv"], "thorough": ["ship", "asan_nv", "alt"]},
+        "worlds": [{"name": "musig", "variants": {"quick": ["ship", "asan_nv", "alt"], "thorough": ["ship", "asan_nv", "alt"]},
                     "runs": {"quick": 6000, "thorough": 200000}, "secondary_share": 0.1}],
         "rule": MUSIG_RULE, "components": COMPONENTS,
         "assumptions": ["reference model (sim/ref) is an independent BIP-327/BIP-340 implementation, self-tested against the BIP vectors at every check",
-                        "nonce generation itself is not recomputed by the model (checked through uniqueness and through signature validity)"],
+                        "every public nonce is compared with the model's BIP-327 NonceGen (for the counter variant: any of the four plain layouts of the counter in the 32 random bytes)"],
     },
     "C13": {
-        "worlds": [{"name": "nonce_api", "variants": {"quick": ["ship", "asan_nv"], "thorough": ["ship", "asan_nv", "alt"]},
+        "worlds": [{"name": "nonce_api", "variants": {"quick": ["ship", "asan_nv", "alt"], "thorough": ["ship", "asan_nv", "alt"]},
                     "runs": {"quick": 40000, "thorough": 2000000}, "secondary_share": 0.1},
                    {"name": "musig", "variants": {"quick": ["ship"], "thorough": ["ship", "asan_nv"]},
                     "runs": {"quick": 3000, "thorough": 150000}, "secondary_share": 0.1}],
@@ -72,17 +72,17 @@ CHECKS = {
         "assumptions": ["copying or serialising a secret nonce (documented misuse) is out of scope", "callbacks return (no longjmp out of the illegal callback)"],
     },
     "C14": {
-        "worlds": [{"name": "swap", "variants": {"quick": ["ship", "asan"], "thorough": ["ship", "asan", "alt"]},
+        "worlds": [{"name": "swap", "variants": {"quick": ["ship", "asan", "alt"], "thorough": ["ship", "asan", "alt"]},
                     "runs": {"quick": 10000, "thorough": 500000}, "secondary_share": 0.15}],
         "rule": "one run = one seeded Plan: 1..4 concurrent adaptor-signature swaps (key/message classes incl. 1, n-1, 0, >= n), nonce-callback faults, erased key records, "
                 "network faults incl. misdelivery between swaps and third-party s-malleation of the published signature; non-trivial = a fault fired and a provenance/model "
                 "comparison happened after it; distinct = distinct Plan hash",
         "components": COMPONENTS,
-        "assumptions": ["acceptance over crafted scalars / points beyond what corruption and misdelivery produce is input-space and not decided",
-                        "the DLEQ proof is not recomputed by the model; accept/reject expectations come from provenance"],
+        "assumptions": ["beyond what corruption and misdelivery produce, crafted adaptor signatures are limited to the auditor's types (honest, R.x = n, s' = 0, s' = n, s' + n, tiny s', other key, other message, negated R'); other crafted scalars / points are input-space and not decided",
+                        "every verification verdict is compared with the reference model (parse rules, DLEQ proof, adaptor equation) as well as with provenance"],
     },
     "C15": {
-        "worlds": [{"name": "aex", "variants": {"quick": ["ship", "asan"], "thorough": ["ship", "asan", "alt"]},
+        "worlds": [{"name": "aex", "variants": {"quick": ["ship", "asan", "alt"], "thorough": ["ship", "asan", "alt"]},
                     "runs": {"quick": 8000, "thorough": 400000}, "secondary_share": 0.1}],
         "rule": "one run = one seeded Plan: 1..6 anti-exfil protocol runs host<->device (message classes incl. >= n, repeated host randomness), faults attached to logical "
                 "messages, host/device crashes, device context events; non-trivial = a fault fired and a provenance/model comparison happened after it; distinct = distinct Plan hash",
@@ -91,7 +91,7 @@ CHECKS = {
                         "plus ECDSA validity in the reference model and nonce-uniqueness with key extraction"],
     },
     "C17": {
-        "worlds": [{"name": "halfagg", "variants": {"quick": ["ship", "asan"], "thorough": ["ship", "asan", "alt"]},
+        "worlds": [{"name": "halfagg", "variants": {"quick": ["ship", "asan", "alt"], "thorough": ["ship", "asan", "alt"]},
                     "runs": {"quick": 8000, "thorough": 400000}, "secondary_share": 0.3}],
         "rule": "one run = one seeded Plan: 0..64 signed triples, a delivery schedule that determines the batch split of incremental aggregation, per-step buffer capacities, "
                 "empty batches, aggregator crashes (resume from persisted bytes), faults on triples / final aggregate / (key,msg) list; non-trivial = a fault fired and a comparison with the "
@@ -100,7 +100,7 @@ CHECKS = {
         "assumptions": ["the reference model implements the half-aggregation draft equation; s >= n rejection cannot be exercised by any constructible input on the real group (see property text)"],
     },
     "C18": {
-        "worlds": [{"name": "xdh", "variants": {"quick": ["ship", "asan"], "thorough": ["ship", "asan", "alt"]},
+        "worlds": [{"name": "xdh", "variants": {"quick": ["ship", "asan", "alt"], "thorough": ["ship", "asan", "alt"]},
                     "runs": {"quick": 10000, "thorough": 500000}, "secondary_share": 0.15}],
         "rule": "one run = one seeded Plan: 1..4 two-party sessions (plain ECDH with compressed/uncompressed/hybrid keys, or ElligatorSwift with create/encode), every hasher choice "
                 "incl. a failing callback, erased secret-key records, role confusion, network faults incl. zero/FF fill and misdelivery; non-trivial = a fault fired and a comparison "
@@ -110,7 +110,7 @@ CHECKS = {
     },
     "C20": {
         "worlds": [
-            {"name": "ctx", "variants": {"quick": ["cov", "ship"], "thorough": ["cov", "ship", "alt", "asan"]},
+            {"name": "ctx", "variants": {"quick": ["cov", "ship", "alt"], "thorough": ["cov", "ship", "alt", "asan"]},
              "runs": {"quick": 6000, "thorough": 150000}, "secondary_share": 0.25, "cross_variant": True},
         ],
         "rule": "one run = one seeded Plan: context-lifecycle history + static-context pass + rounds of 2..16 fibers on one shared context "
